@@ -34,3 +34,18 @@ package storage
 //@     invariant forall k string :: has(p.Pillars, k) ==> p.Pillars[k] != nil && p.Pillars[k].Weight != nil
 //@     invariant p.Pillars == old(p.Pillars) && left.Pillars == old(left.Pillars)
 //@     invariant forall k string :: has(left.Pillars, k) ==> left.Pillars[k] != nil && allocated(left.Pillars[k]) && left.Pillars[k].Weight != nil && allocated(left.Pillars[k].Weight)
+
+// ======================================================================================================================
+// Property C05 (the schedule of a tick is the same on every node): the election a node persists is the election it computed.
+// At the hand-over to the protobuf encoder (external, reflection) the image lists every producer in its own slot, as a byte
+// string of its own (not a window onto a shared variable).
+//@ func ElectionData.Marshal(d) -> (buf, err)
+//@   requires d != nil
+//@   requires forall k int :: 0 <= k && k < len(d.Delegations) ==> d.Delegations[k] != nil && d.Delegations[k].Weight != nil
+//@   at-call Marshal assert[every-producer-in-its-own-slot] len(pb.Producers) == len(d.Producers) && (forall k int :: 0 <= k && k < len(d.Producers) ==> len(pb.Producers[k]) == 20 && bytesval(pb.Producers[k]) == arrbytes(d.Producers[k], 20))
+//@   at-call Marshal assert[every-delegation-listed] len(pb.Delegations) == len(d.Delegations)
+//@   loop 1
+//@     invariant pb != nil && fresh(pb) && fresh(pb.Delegations) && len(pb.Delegations) == rangeindex#1 + 1
+//@   loop 2
+//@     invariant pb != nil && fresh(pb) && fresh(pb.Producers) && len(pb.Delegations) == len(d.Delegations) && len(pb.Producers) == rangeindex#2 + 1
+//@     invariant forall k int :: 0 <= k && k <= rangeindex#2 ==> allocated(pb.Producers[k]) && len(pb.Producers[k]) == 20 && bytesval(pb.Producers[k]) == arrbytes(d.Producers[k], 20)
